@@ -9,7 +9,7 @@
 namespace NV
 
 def capEventKinds : List String :=
-  ["udp-ok", "udp-err", "udp-timeout", "udp-panic", "udp-small", "udp-malformed",
+  ["udp-ok", "udp-err", "udp-timeout", "udp-panic", "udp-small", "udp-malformed", "udp-d53tc", "tcp-d53tc",
    "tcp-ok", "tcp-err", "tcp-panic", "tcp-small", "tcp-midframe", "tcp-idle-close", "tcp-timeout", "tcp-pipeline"]
 
 /-- units held by threads after a storm in which every request has ended: none (NV.C04
